@@ -1483,7 +1483,6 @@ func (in *inliner) inline(site inlSite, call *ast.CallExpr, dest inlDest) ([]ast
 	return pre, res, true
 }
 
-
 // pureOperand: a name or a literal — evaluating it has no effect.
 func pureOperand(e ast.Expr) bool {
 	switch ast.Unparen(e).(type) {
@@ -1492,7 +1491,6 @@ func pureOperand(e ast.Expr) bool {
 	}
 	return false
 }
-
 
 // ifaceMethodLeavesFields: the call is a call of an interface method, and every implementation of that method in this module
 // leaves fields with these names alone.
